@@ -120,7 +120,9 @@ def _state_event(ev, R, mirror, descriptor):
     e = {'ev': ev, 'A': A, 'desc': desc, 'keys': keys,
          'off': [_d(R.offset[k]) for k in keys], 'Tref': _d(R.T_ref),
          'dft': [_d(r.model.get_HoRT(T=r.T_ref)) for r in R],
-         'exp': [_d(r.HoRT_ref) for r in R], 'Ti': [_d(r.T_ref) for r in R]}
+         'exp': [_d(r.HoRT_ref) for r in R], 'Ti': [_d(r.T_ref) for r in R],
+         # off . x_i as the object evaluates it (double precision witness of the fitted values)
+         'fitv': [_d(-R.get_HoRT(descriptors=s['comp'])) for s in mirror]}
     return e, mism
 
 
@@ -291,7 +293,7 @@ def _beh_to_case(h, cid, rnd):
     count = 0
     for rec in h:
         op = {'act': rec['act'], 'expect': {'cur': rec['cur'], 'fresh': rec['fresh']},
-              'isfresh': rec['isfresh'], 'det': rec['det']}
+              'isfresh': rec['isfresh'], 'det': rec['det'], 'n': rec['n']}
         if rec['act'] in ('construct', 'append', 'extend'):
             op['refs'] = []
             for r in rec['arg']:
@@ -324,13 +326,89 @@ def _rand_comp(rnd, names, dens=0.6, hi=4):
             return comp
 
 
+def _finish_case(rnd, cid, descriptor, names, ops, shape, tmode, T0):
+    absent = ABSENT[descriptor]
+    targets = []
+    for i in range(2):
+        comp = _rand_comp(rnd, names, dens=0.7)
+        if rnd.random() < 0.4:
+            comp[rnd.choice(absent)] = rnd.randint(1, 3)
+        targets.append({'comp': comp, 'E': rnd.uniform(-40.0, -1.0),
+                        'wn': [rnd.uniform(150.0, 3900.0) for _ in range(rnd.randint(0, 4))]})
+    x = _rand_comp(rnd, names, dens=0.6, hi=3)
+    y = _rand_comp(rnd, names + absent[:1], dens=0.6, hi=3)
+    a, b = rnd.randint(1, 3), rnd.randint(1, 3)
+    z = {}
+    for kx, v in x.items():
+        z[kx] = z.get(kx, 0) + a * v
+    for ky, v in y.items():
+        z[ky] = z.get(ky, 0) + b * v
+    lin = {'a': a, 'b': b, 'model': {'E': rnd.uniform(-20.0, -1.0), 'wn': [rnd.uniform(300.0, 3000.0)]},
+           'x': x, 'y': y, 'z': z}
+    T1 = rnd.choice([rnd.uniform(100.0, 2000.0), T0])
+    T2 = rnd.uniform(100.0, 2000.0)
+    return {'cid': cid, 'kind': 'real', 'descriptor': descriptor, 'names': names, 'ops': ops,
+            'targets': targets, 'lin': lin, 'T': [T1, T2], 'shape': shape, 'tmode': tmode}
+
+
+def _refspec(rnd, i, comp, T, exp=None):
+    spec = {'name': 'ref%d' % i, 'comp': comp, 'E': rnd.uniform(-40.0, -1.0),
+            'wn': [rnd.uniform(150.0, 3900.0) for _ in range(rnd.randint(0, 4))],
+            'T': T, 'exp': rnd.uniform(-400.0, 150.0) if exp is None else exp}
+    if rnd.random() < 0.3:
+        spec['mw'] = rnd.uniform(2.0, 120.0)
+    return spec
+
+
+def _square_singular_case(rnd, cid, descriptor, pool, rows=None, how=None):
+    """As many references as descriptors, one of them an integer combination of two others (the
+    3 x 3 ... 5 x 5 composition matrix has rank n - 1; entries up to 8+): e.g. C2H6, H2CO and
+    C3H8O = C2H6 + H2CO over C, H, O.  Reached by constructing with all of them, or by fitting the
+    independent ones, adding the dependent one and refitting."""
+    if rows is None:
+        n = rnd.choice([2, 3, 3, 4, 4, 5])
+        names = sorted(rnd.sample(pool, n))
+        while True:
+            rows = [[rnd.choice([0, 0, 1, 1, 2, 3, 4]) for _ in range(n)] for _ in range(n - 1)]
+            if n == 2:
+                rows.append([2 * v for v in rows[0]])
+            else:
+                i, j = rnd.sample(range(n - 1), 2)
+                a, b = rnd.randint(1, 2), rnd.randint(1, 2)
+                rows.append([a * u + b * v for u, v in zip(rows[i], rows[j])])
+            if all(any(r) for r in rows) and all(any(r[c] for r in rows) for c in range(n)):
+                break
+    else:
+        n = len(rows)
+        names = sorted(pool[:n]) if descriptor != 'elements' else ['C', 'H', 'O'][:n]
+    T0 = rnd.choice([298.15, 298.0, 300.0, 500.0])
+    refs = [_refspec(rnd, i, {names[c]: v for c, v in enumerate(r) if v}, T0) for i, r in enumerate(rows)]
+    how = how or rnd.choice(['construct', 'append', 'insert', 'extend'])
+    if how == 'construct':
+        order = list(refs)
+        rnd.shuffle(order)
+        ops = [{'act': 'construct', 'refs': order}]
+    elif how == 'append':
+        ops = [{'act': 'construct', 'refs': refs[:-1]}, {'act': 'append', 'refs': [refs[-1]]}, {'act': 'fit'}]
+    elif how == 'insert':
+        ops = [{'act': 'construct', 'refs': refs[:-1]},
+               {'act': 'insert', 'i': rnd.randrange(0, n - 1), 'refs': [refs[-1]]}, {'act': 'fit'}]
+    else:
+        k = rnd.randint(1, n - 1)
+        ops = [{'act': 'construct', 'refs': refs[:k]}, {'act': 'extend', 'refs': refs[k:]}, {'act': 'fit'}]
+    return _finish_case(rnd, cid, descriptor, names, ops, 'square_singular', 'equal', T0)
+
+
 def _random_case(rnd, cid):
     descriptor = 'elements' if rnd.random() < 0.7 else 'groups'
     pool = ELEMENTS if descriptor == 'elements' else GROUPS
     nd = rnd.randint(1, 5)
     names = sorted(rnd.sample(pool, nd))
     nref = rnd.randint(1, 8)
-    shape = rnd.choice(['free', 'free', 'square', 'dependent_rows', 'tied_columns', 'under'])
+    shape = rnd.choice(['free', 'free', 'square', 'dependent_rows', 'tied_columns', 'under',
+                        'square_singular'])
+    if shape == 'square_singular':
+        return _square_singular_case(rnd, cid, descriptor, pool)
     if shape == 'square':
         nref = nd
     elif shape == 'under':
@@ -395,28 +473,7 @@ def _random_case(rnd, cid):
         ops.append({'act': 'extend', 'refs': rest})
     if ops[-1]['act'] != 'fit':
         ops.append({'act': 'fit'})
-    absent = ABSENT[descriptor]
-    targets = []
-    for i in range(2):
-        comp = _rand_comp(rnd, names, dens=0.7)
-        if rnd.random() < 0.4:
-            comp[rnd.choice(absent)] = rnd.randint(1, 3)
-        targets.append({'comp': comp, 'E': rnd.uniform(-40.0, -1.0),
-                        'wn': [rnd.uniform(150.0, 3900.0) for _ in range(rnd.randint(0, 4))]})
-    x = _rand_comp(rnd, names, dens=0.6, hi=3)
-    y = _rand_comp(rnd, names + absent[:1], dens=0.6, hi=3)
-    a, b = rnd.randint(1, 3), rnd.randint(1, 3)
-    z = {}
-    for kx, v in x.items():
-        z[kx] = z.get(kx, 0) + a * v
-    for ky, v in y.items():
-        z[ky] = z.get(ky, 0) + b * v
-    lin = {'a': a, 'b': b, 'model': {'E': rnd.uniform(-20.0, -1.0), 'wn': [rnd.uniform(300.0, 3000.0)]},
-           'x': x, 'y': y, 'z': z}
-    T1 = rnd.choice([rnd.uniform(100.0, 2000.0), T0])
-    T2 = rnd.uniform(100.0, 2000.0)
-    return {'cid': cid, 'kind': 'real', 'descriptor': descriptor, 'names': names, 'ops': ops,
-            'targets': targets, 'lin': lin, 'T': [T1, T2], 'shape': shape, 'tmode': tmode}
+    return _finish_case(rnd, cid, descriptor, names, ops, shape, tmode, T0)
 
 
 def _signature(case):
@@ -441,7 +498,7 @@ def run(ctx):
         'cases are complete TLC behaviours of References.tla (state equality on rational projections after '
         'each call), real cases are random real-valued histories (1-8 references over 1-5 descriptors, '
         'elements or groups, equal / close / spread T_ref, dependent rows, tied columns, under- and '
-        'over-determined); every case is judged line by line by Trace_References.tla; non-trivial = at '
+        'over-determined, square rank-deficient with a row that is an integer combination of two others); every case is judged line by line by Trace_References.tla; non-trivial = at '
         'least one fit of >= 2 references or one edit; distinct by the operation sequence')
     if ctx.replay_case is not None:
         cases = [ctx.replay_case['case']]
@@ -449,9 +506,11 @@ def run(ctx):
         cases = []
         import concurrent.futures as cf
         rnd = random.Random(ctx.seed)
-        with cf.ThreadPoolExecutor(max_workers=2) as pool:
+        with cf.ThreadPoolExecutor(max_workers=3) as pool:
             # (S->C) behaviour generation (single TLC worker) runs beside the design model
             fut = pool.submit(_tlc_behaviours, 'MC_References_beh')
+            # 3 x 3 squares (full rank and rank 2) of real molecules: invariants checked + behaviours emitted
+            fut_sq = pool.submit(_tlc_behaviours, 'MC_References_sq')
             fut_sim = None
             if not ctx.quick:
                 fut_sim = pool.submit(_tlc_behaviours, 'MC_References_sim', 1500,
@@ -465,19 +524,33 @@ def run(ctx):
             if bad.ok or bad.violated != 'AlwaysFresh':
                 raise core.MachineryError('MC_References_nostale should be rejected with AlwaysFresh:\n'
                                           + bad.out[-1500:])
+            bad = ctx.model('MC_References', 'MC_References_squarefast', expect_ok=False)
+            if bad.ok or bad.violated != 'NormalEquations':
+                raise core.MachineryError('MC_References_squarefast should be rejected with NormalEquations:\n'
+                                          + bad.out[-1500:])
+            ctx.notes.append('design model: the "square fast path" variant (direct solve of square systems, '
+                             'singularity unnoticed) is rejected on square rank-deficient sets, as expected')
             ctx.notes.append('design model: append/extend/insert/pop leave offset and T_ref stale until '
                              'fit_HoRT_offset() (AlwaysFresh rejected for the code-shaped variant, as expected)')
             behs = fut.result()
             ctx.coverage['tlc_behaviours'] = len(behs)
+            sq = fut_sq.result()
+            ctx.coverage['tlc_square_behaviours'] = len(sq)
             if ctx.quick:
                 rnd.shuffle(behs)
-                behs = behs[:1200]
+                behs = behs[:1000]
             else:
                 sim = fut_sim.result()
                 ctx.coverage['tlc_simulated_behaviours'] = len(sim)
                 behs += sim
-        for k, h in enumerate(behs):
+        for k, h in enumerate(behs + sq):
             cases.append(_beh_to_case(h, 'g%d' % k, rnd))
+        # pinned: C2H6, H2CO, C3H8O (= C2H6 + H2CO) over C, H, O - a 3 x 3 matrix of rank 2 whose LU
+        # factorisation does not meet an exactly zero pivot - and H2CO, C2H4O2, C3H8O (rank 2 as well)
+        for k, (rows, how) in enumerate([(r, hw) for r in ([[2, 6, 0], [1, 2, 1], [3, 8, 1]],
+                                                            [[1, 2, 1], [2, 6, 0], [4, 10, 2]])
+                                         for hw in ('construct', 'append', 'insert', 'extend')]):
+            cases.append(_square_singular_case(rnd, 'p%d' % k, 'elements', ELEMENTS, rows=rows, how=how))
         for k in range(ctx.pick(500, 8000)):
             cases.append(_random_case(rnd, 'r%d' % k))
     results = core.pmap(_safe_execute, cases)
@@ -505,11 +578,19 @@ def run(ctx):
     # vacuity indicators (discrete facts only; the rank flags of grid cases were computed by TLC)
     cnt = {'grid_fits_rows_independent': 0, 'grid_fits_rows_dependent': 0, 'stale_states': 0,
            'refitted_states': 0, 'evals_with_absent_descriptor': 0, 'repro_events': 0,
-           'fits_with_unequal_T_ref': 0}
+           'fits_with_unequal_T_ref': 0, 'square_rank_deficient_fits': 0}
     for case, (events, _) in zip(cases, results):
         for o in case['ops']:
             if 'det' in o and o.get('isfresh'):
                 cnt['grid_fits_rows_independent' if o['det'] else 'grid_fits_rows_dependent'] += 1
+                # rank flag computed by TLC: rows dependent and as many rows as descriptors
+                if not o['det'] and o['n'] == len(o['expect']['fresh']['keys']):
+                    cnt['square_rank_deficient_fits'] += 1
+        if case.get('shape') == 'square_singular':      # rank deficient by construction
+            nall = sum(len(o.get('refs', [])) for o in case['ops'])
+            cnt['square_rank_deficient_fits'] += sum(
+                1 for e in events if e['ev'] in ('construct', 'fit')
+                and len(e['A']) == nall == len(e['desc']))
         prev = None
         for e in events:
             if e['ev'] in ('append', 'extend', 'insert', 'pop'):
